@@ -12,6 +12,8 @@ OR = "tola.assembly.overlap_result"
 FM = "tola.assembly.format"
 FIM = "tola.fasta.index"
 FI = "tola.fasta.index"
+FSM = "tola.fasta.stream"
+FS = "tola.fasta.stream"
 FO = IA + ".IndexedAssembly.find_overlaps"
 
 MUTANTS = [
@@ -72,6 +74,19 @@ MUTANTS = [
     ("C03", FI + ".FastaIndex.sequence_bytes", FIM, "seq.write(fh.read(rpl - frst_offset))\n            fh.seek(line_end_bytes, 1)", "seq.write(fh.read(rpl - frst_offset))\n            fh.seek(1, 1)"),
     ("C03", FI + ".FastaIndex.sequence_bytes", FIM, "start -= 1  # Switch to Python coordinates", "pass"),
     ("C03", FI + ".FastaIndex.sequence_bytes", FIM, "            if last_offset:\n                seq.write(fh.read(last_offset))", "            seq.write(fh.read(last_offset + 1))"),
+    ("C03", FI + ".FastaIndex.fwd_chunks", FIM, "chunk_end = min(end, chunk_start + max_length - 1)\n            yield self.sequence_bytes", "chunk_end = min(end, chunk_start + max_length)\n            yield self.sequence_bytes"),
+    ("C13", FI + ".FastaIndex.fwd_chunks", FIM, "chunk_count = 1 + ((end - start) // max_length)", "chunk_count = 1"),
+    ("C03", FI + ".FastaIndex.rev_chunks", FIM, "chunk_count = (end - start) // max_length\n", "chunk_count = 1 + (end - start) // max_length\n"),
+    ("C14", FI + ".FastaIndex.rev_chunks", FIM, "yield revcomp_bytes_io(self.sequence_bytes(info, chunk_start, chunk_end))", "yield self.sequence_bytes(info, chunk_start, chunk_end)"),
+    ("C14", FI + ".FastaIndex.rev_chunks", FIM, "for i in range(chunk_count, -1, -1):", "for i in range(0, chunk_count + 1):"),
+    ("C03", FI + ".FastaIndex.get_gap_iter", FIM, "chunk_end = min(length, chunk_start + max_length)", "chunk_end = min(length, chunk_start + max_length - 1)"),
+    ("C03", FI + ".FastaIndex.get_gap_iter", FIM, "chunk_count = 1 + (length // max_length)", "chunk_count = length // max_length"),
+    ("C13", FI + ".FastaIndex.get_gap_iter", FIM, "chunk_end = min(length, chunk_start + max_length)", "chunk_end = length"),
+    ("C14", FI + ".FastaIndex.get_sequence_iter", FIM, "if frag.strand == -1:", "if frag.strand != 1:"),
+    ("C03", FS + ".FastaStream.write_scaffold", FSM, "                            want = line_length\n", "                            pass\n"),
+    ("C03", FS + ".FastaStream.write_scaffold", FSM, "        if want != line_length:\n            out.write(b\"\\n\")", "        out.write(b\"\\n\")"),
+    ("C03", FS + ".FastaStream.write_scaffold", FSM, "want -= len(seq)", "want -= 1"),
+    ("C03", FS + ".FastaStream.write_scaffold", FSM, "if isinstance(row, Gap)\n                else fai.get_sequence_iter(row)", "if isinstance(row, Gap)\n                else []"),
     # C06
     ("C06", FM + ".format_agp", FM, "            p += row.length\n", "            pass\n"),
     ("C06", FM + ".format_agp", FM, "str(i + 1),", "str(i),"),
